@@ -313,7 +313,7 @@ theorem upd2_upd2 {α : Type} (f : Nat → Nat → α) (k j : Nat) (v w : α) : 
   funext x y; simp only [upd2_apply]; split <;> rfl
 
 theorem detachClock_spec {s s' : State} {h p : Nat} (hC : C s) (hr : detachClock s h p = .ok s') :
-    ∃ cd ck, s' = { s with clocked := cd, clk := ck } ∧
+    ∃ cd ck ca, s' = { s with clocked := cd, clk := ck, cache := ca } ∧
       ClockInv s.size s.alive s.numClk ck s.nclocks cd ∧ s.live h ∧ p < s.numClk h ∧ ck h p = none ∧
       (∀ x y, ck x y = none ∨ ck x y = s.clk x y) := by
   unfold detachClock at hr
@@ -325,20 +325,20 @@ theorem detachClock_spec {s s' : State} {h p : Nat} (hC : C s) (hr : detachClock
   · rename_i hn
     have e : s = s' := by injection hr
     subst e
-    exact ⟨s.clocked, s.clk, rfl, hC, hl, hp, hn, fun _ _ => Or.inr rfl⟩
+    exact ⟨s.clocked, s.clk, s.cache, rfl, hC, hl, hp, hn, fun _ _ => Or.inr rfl⟩
   · rename_i c hc
     split at hr
     · cases hr
     have e := Except.ok.inj hr
     subst e
-    refine ⟨_, _, rfl, clock_remove hC h p c hl.1 hl.2 hp hc, hl, hp, by simp [upd2_apply], ?_⟩
+    refine ⟨_, _, _, rfl, clock_remove hC h p c hl.1 hl.2 hp hc, hl, hp, by simp [upd2_apply], ?_⟩
     intro x y
     rw [upd2_apply]; split
     · exact Or.inl rfl
     · exact Or.inr rfl
 
 theorem attachClock_spec {s s' : State} {h p : Nat} {c : Option Nat} (hC : C s) (hr : attachClock s h p c = .ok s') :
-    ∃ cd ck, s' = { s with clocked := cd, clk := ck } ∧
+    ∃ cd ck ca, s' = { s with clocked := cd, clk := ck, cache := ca } ∧
       ClockInv s.size s.alive s.numClk ck s.nclocks cd ∧
       (∀ x y v, ck x y = some v → s.clk x y = some v ∨ s.calive v = true) := by
   unfold attachClock at hr
@@ -353,9 +353,9 @@ theorem attachClock_spec {s s' : State} {h p : Nat} {c : Option Nat} (hC : C s) 
   split at hr
   · have e : s = s' := by injection hr
     subst e
-    exact ⟨s.clocked, s.clk, rfl, hC, fun _ _ _ e => Or.inl e⟩
+    exact ⟨s.clocked, s.clk, s.cache, rfl, hC, fun _ _ _ e => Or.inl e⟩
   obtain ⟨s1, h1, h2⟩ := bind_ok.mp hr
-  obtain ⟨cd, ck, rfl, hC1, _, _, hnone, hmon⟩ := detachClock_spec hC h1
+  obtain ⟨cd, ck, ca, rfl, hC1, _, _, hnone, hmon⟩ := detachClock_spec hC h1
   have hprov : ∀ x y v, ck x y = some v → s.clk x y = some v := by
     intro x y v e
     rcases hmon x y with e1 | e1
@@ -366,14 +366,14 @@ theorem attachClock_spec {s s' : State} {h p : Nat} {c : Option Nat} (hC : C s) 
     simp only at h2
     have e := Except.ok.inj h2
     subst e
-    refine ⟨cd, ck, ?_, hC1, fun x y v e => Or.inl (hprov x y v e)⟩
-    show ({ s with clocked := cd, clk := upd2 ck h p none } : State) = _
+    refine ⟨cd, ck, ca, ?_, hC1, fun x y v e => Or.inl (hprov x y v e)⟩
+    show ({ s with clocked := cd, clk := upd2 ck h p none, cache := ca } : State) = _
     rw [upd2_self' ck h p none hnone]
   | some c =>
     simp only at h2
     have e := Except.ok.inj h2
     subst e
-    refine ⟨_, _, rfl, clock_add hC1 h p c hl.1 hl.2 hp hnone (hv c rfl).1, ?_⟩
+    refine ⟨_, _, _, rfl, clock_add hC1 h p c hl.1 hl.2 hp hnone (hv c rfl).1, ?_⟩
     intro x y v e
     rw [upd2_apply] at e
     split at e
@@ -410,7 +410,7 @@ theorem clock_grow {size : Nat} {alive : Nat → Bool} {numClk : Nat → Nat} {c
       · intro ⟨e1, e2⟩; rw [e1] at c2; omega
 
 theorem addClock_spec {s s' : State} {h : Nat} {c : Option Nat} (hC : C s) (hr : addClock s h c = .ok s') :
-    ∃ cd ck nk, s' = { s with clocked := cd, clk := ck, numClk := nk } ∧
+    ∃ cd ck ca nk, s' = { s with clocked := cd, clk := ck, cache := ca, numClk := nk } ∧
       ClockInv s.size s.alive nk ck s.nclocks cd ∧
       (∀ x y v, ck x y = some v → (s.clk x y = some v ∧ ¬ (x = h ∧ y = s.numClk h)) ∨ s.calive v = true) ∧
       (∀ x, nk x = s.numClk x ∨ (x = h ∧ nk x = s.numClk x + 1 )) ∧ s.live h := by
@@ -421,9 +421,9 @@ theorem addClock_spec {s s' : State} {h : Nat} {c : Option Nat} (hC : C s) (hr :
   have hl : s.live h := Classical.not_not.mp hl
   simp only at hr
   have hC1 := clock_grow hC h
-  obtain ⟨cd, ck, e, hC2, hprov⟩ := attachClock_spec
+  obtain ⟨cd, ck, ca, e, hC2, hprov⟩ := attachClock_spec
     (s := { s with numClk := upd s.numClk h (s.numClk h + 1), clk := upd2 s.clk h (s.numClk h) none }) hC1 hr
-  refine ⟨cd, ck, _, e, hC2, ?_, ?_, hl⟩
+  refine ⟨cd, ck, ca, _, e, hC2, ?_, ?_, hl⟩
   · intro x y v e1
     rcases hprov x y v e1 with e2 | e2
     · left
@@ -439,18 +439,18 @@ theorem addClock_spec {s s' : State} {h : Nat} {c : Option Nat} (hC : C s) (hr :
     · left; simp [e]
 
 theorem detachRange_spec {h : Nat} (ps : List Nat) {s s' : State} (hC : C s) (hr : detachRange s h ps = .ok s') :
-    ∃ cd ck, s' = { s with clocked := cd, clk := ck } ∧
+    ∃ cd ck ca, s' = { s with clocked := cd, clk := ck, cache := ca } ∧
       ClockInv s.size s.alive s.numClk ck s.nclocks cd ∧
       (∀ x y, ck x y = none ∨ ck x y = s.clk x y) ∧ (∀ p ∈ ps, ck h p = none) := by
   induction ps generalizing s with
   | nil =>
     have e : s = s' := by injection hr
-    subst e; exact ⟨s.clocked, s.clk, rfl, hC, fun _ _ => Or.inr rfl, by simp⟩
+    subst e; exact ⟨s.clocked, s.clk, s.cache, rfl, hC, fun _ _ => Or.inr rfl, by simp⟩
   | cons p ps ih =>
     obtain ⟨s1, h1, h2⟩ := bind_ok.mp hr
-    obtain ⟨cd1, ck1, rfl, hC1, _, _, hnone, hmon1⟩ := detachClock_spec hC h1
-    obtain ⟨cd, ck, rfl, hC2, hmon, hz⟩ := ih (s := { s with clocked := cd1, clk := ck1 }) hC1 h2
-    refine ⟨cd, ck, rfl, hC2, ?_, ?_⟩
+    obtain ⟨cd1, ck1, ca1, rfl, hC1, _, _, hnone, hmon1⟩ := detachClock_spec hC h1
+    obtain ⟨cd, ck, ca, rfl, hC2, hmon, hz⟩ := ih (s := { s with clocked := cd1, clk := ck1, cache := ca1 }) hC1 h2
+    refine ⟨cd, ck, ca, rfl, hC2, ?_, ?_⟩
     · intro x y
       rcases hmon x y with e | e
       · exact Or.inl e
@@ -662,7 +662,7 @@ theorem killclock_ca {size : Nat} {alive : Nat → Bool} {numClk : Nat → Nat} 
   · exact hA x hs ha p hp v hv
 
 theorem drainClock_spec {c : Nat} (fuel : Nat) {s s' : State} (hC : C s) (hr : drainClock fuel s c = .ok s') :
-    ∃ cd ck, s' = { s with clocked := cd, clk := ck } ∧
+    ∃ cd ck ca, s' = { s with clocked := cd, clk := ck, cache := ca } ∧
       ClockInv s.size s.alive s.numClk ck s.nclocks cd ∧ cd c = [] ∧
       (∀ x y, ck x y = none ∨ ck x y = s.clk x y) := by
   induction fuel generalizing s with
@@ -671,18 +671,18 @@ theorem drainClock_spec {c : Nat} (fuel : Nat) {s s' : State} (hC : C s) (hr : d
     split at hr
     · rename_i he
       have e : s = s' := by injection hr
-      subst e; exact ⟨s.clocked, s.clk, rfl, hC, he, fun _ _ => Or.inr rfl⟩
+      subst e; exact ⟨s.clocked, s.clk, s.cache, rfl, hC, he, fun _ _ => Or.inr rfl⟩
     · cases hr
   | succ f ih =>
     unfold drainClock at hr
     split at hr
     · rename_i he
       have e : s = s' := by injection hr
-      subst e; exact ⟨s.clocked, s.clk, rfl, hC, he, fun _ _ => Or.inr rfl⟩
+      subst e; exact ⟨s.clocked, s.clk, s.cache, rfl, hC, he, fun _ _ => Or.inr rfl⟩
     · obtain ⟨s1, h1, h2⟩ := bind_ok.mp hr
-      obtain ⟨cd1, ck1, rfl, hC1, _, _, _, hmon1⟩ := detachClock_spec hC h1
-      obtain ⟨cd, ck, rfl, hC2, hz, hmon⟩ := ih (s := { s with clocked := cd1, clk := ck1 }) hC1 h2
-      refine ⟨cd, ck, rfl, hC2, hz, ?_⟩
+      obtain ⟨cd1, ck1, ca1, rfl, hC1, _, _, _, hmon1⟩ := detachClock_spec hC h1
+      obtain ⟨cd, ck, ca, rfl, hC2, hz, hmon⟩ := ih (s := { s with clocked := cd1, clk := ck1, cache := ca1 }) hC1 h2
+      refine ⟨cd, ck, ca, rfl, hC2, hz, ?_⟩
       intro x y
       rcases hmon x y with e | e
       · exact Or.inl e
